@@ -177,7 +177,11 @@ def check(prog: Program, tier: str) -> Result:
 
     def roles(fi_):
         fn_ = fi_.node
-        diy = next((n.targets[0].id for n in fn_.body if isinstance(n, ast.Assign) and isinstance(n.targets[0], ast.Name) and _list_ints(n.value) is not None and len(_list_ints(n.value)) >= 12), None)
+        diy = next((n.targets[0].id for n in ast.walk(fn_) if isinstance(n, ast.Assign) and isinstance(n.targets[0], ast.Name) and _list_ints(n.value) is not None and len(_list_ints(n.value)) >= 12), None)
+        if diy is not None and diy in fi_.params():
+            res.ob("R19.1", f"{fi_.name}: the month lengths are the function's own non-leap table", False, prog.loc(fi_, fn_))
+            res.violation("R19.1", f"{fi_.name}|table-is-a-parameter|{diy}", prog.loc(fi_, fn_), fi_.qualname,
+                          f"{fi_.name} takes its month-length table from the parameter '{diy}' when one is given: the (month, day, hour) labels are then those of whatever calendar the caller passes, not of the non-leap year")
         hiy = next((n.targets[0].id for n in fn_.body if isinstance(n, ast.Assign) and isinstance(n.targets[0], ast.Name) and isinstance(n.value, ast.ListComp)
                     and len(n.value.generators) == 1 and ast.unparse(n.value.generators[0].iter) == diy), None)
         loop = next((n for n in fn_.body if isinstance(n, ast.For)), None)
@@ -369,8 +373,12 @@ def check(prog: Program, tier: str) -> Result:
         lab = None
         for s in ast.walk(node):
             if isinstance(s, ast.Assign) and isinstance(s.targets[0], ast.Tuple) and isinstance(s.value, ast.Call) and attr_chain(s.value.func) == "self.ghe_time_convert":
-                lab = ([e.id for e in s.targets[0].elts if isinstance(e, ast.Name)], ast.unparse(s.value.args[0]) if s.value.args else None)
+                lab = ([e.id for e in s.targets[0].elts if isinstance(e, ast.Name)], ast.unparse(s.value.args[0]) if s.value.args else None, len(s.value.args) + len(s.value.keywords))
         okr = lab is not None and lab[1] == iv and [ast.unparse(e) for e in row.elts] == lab[0] + [iv, lv]
+        if lab is not None and lab[2] != 1:
+            res.ob("R19.2", "the labels come from ghe_time_convert(index) alone - the non-leap calendar, whatever year the loads belong to", False, prog.loc(fi, row))
+            res.violation("R19.2", f"loads-calendar|{lab[2]}-arguments", prog.loc(fi, row), q,
+                          "ghe_time_convert is given more than the hour index (a month table): the labels of the 8760 rows then follow that table - with a leap load year every row after February is one day early")
         res.ob("R19.2", f"each row = [month, day, hour] of ghe_time_convert(index), index, load ({ast.unparse(row)})", okr, prog.loc(fi, row))
         if not okr:
             res.violation("R19.2", f"loads-row|{ast.unparse(row)[:60]}", prog.loc(fi, row), q, f"a loads row is {ast.unparse(row)[:100]} with labels from ghe_time_convert({lab[1] if lab else '?'}); expected [month, day, hour, index, load] labelled by the row's own index")
@@ -688,6 +696,9 @@ DSM = "ghedesigner.design"
 MGM = "ghedesigner.manager"
 
 VARIANTS = [
+    Variant("the loads table labels its hours with the load year's month table (seeded C19_g)", "break",
+            [(OUT, "    def ghe_time_convert(hours):\n        days_in_year = [31, 28, 31, 30, 31, 30, 31, 31, 30, 31, 30, 31]\n", "    def ghe_time_convert(hours, days_in_year=None):\n        if days_in_year is None:\n            days_in_year = [31, 28, 31, 30, 31, 30, 31, 31, 30, 31, 30, 31]\n"),
+             (OUT, "            month, day_in_month, hour_in_day = self.ghe_time_convert(hour)\n", "            month, day_in_month, hour_in_day = self.ghe_time_convert(hour, design.ghe.hybrid_load.days_in_month[1:13])\n")], "R19.1"),
     Variant("prepare_results keeps the earlier result while the report labels are unchanged (seeded C19_d)", "break",
             [(MGM, "    def prepare_results(self, project_name: str, note: str, author: str, iteration_name: str):\n", "    def prepare_results(self, project_name: str, note: str, author: str, iteration_name: str):\n        labels = (project_name, note, author, iteration_name)\n        if self.results is not None and labels == getattr(self, '_results_labels', None):\n            return\n        self._results_labels = labels\n")], "R19.7"),
     Variant("bore-field file written from the loads rows", "break",
